@@ -151,9 +151,17 @@ func runCheck(id, repo, verif, tier string, seed int, freeze bool, keep string, 
 	}
 	// expected obligations
 	expFile := filepath.Join(specDir, "expected", id+".txt")
+	// obligation names are compared without their "#k" occurrence suffix, so that an edit which
+	// changes how often a clause is instantiated (e.g. one more return path) is not a missing obligation
+	base := func(n string) string {
+		if i := strings.LastIndex(n, "#"); i > 0 {
+			return n[:i]
+		}
+		return n
+	}
 	have := map[string]bool{}
 	for _, r := range results {
-		have[r.O.Name] = true
+		have[base(r.O.Name)] = true
 	}
 	if freeze {
 		names := []string{}
@@ -168,8 +176,8 @@ func runCheck(id, repo, verif, tier string, seed int, freeze bool, keep string, 
 	if b, err := os.ReadFile(expFile); err == nil {
 		for _, n := range strings.Split(string(b), "\n") {
 			n = strings.TrimSpace(n)
-			if n != "" && !have[n] {
-				missing = append(missing, n)
+			if n != "" && !have[base(n)] {
+				missing = append(missing, base(n))
 			}
 		}
 	}
